@@ -97,6 +97,9 @@ pub trait OutElem: Clone + Default + 'static {
     fn obs(&self) -> Obs;
     /// bit pattern for the bit-for-bit relational checks
     fn bits(&self) -> u64;
+    /// a value no kernel produces on the harness's inputs: pre-fills the cells AROUND a
+    /// caller-supplied output buffer, which must come back untouched
+    fn sentinel() -> Self;
 }
 
 impl OutElem for f64 {
@@ -109,6 +112,9 @@ impl OutElem for f64 {
     fn bits(&self) -> u64 {
         if self.is_nan() { u64::MAX } else { self.to_bits() }
     }
+    fn sentinel() -> Self {
+        -777.015625
+    }
 }
 impl OutElem for f32 {
     const NAME: &'static str = "f32";
@@ -119,6 +125,9 @@ impl OutElem for f32 {
     }
     fn bits(&self) -> u64 {
         if self.is_nan() { u64::MAX } else { self.to_bits() as u64 }
+    }
+    fn sentinel() -> Self {
+        -777.015625
     }
 }
 impl OutElem for Option<f64> {
@@ -138,6 +147,9 @@ impl OutElem for Option<f64> {
             _ => u64::MAX,
         }
     }
+    fn sentinel() -> Self {
+        Some(-777.015625)
+    }
 }
 impl OutElem for Option<f32> {
     const NAME: &'static str = "Option<f32>";
@@ -156,6 +168,9 @@ impl OutElem for Option<f32> {
             _ => u64::MAX,
         }
     }
+    fn sentinel() -> Self {
+        Some(-777.015625)
+    }
 }
 macro_rules! int_out {
     ($($t:ty),*) => {$(
@@ -165,6 +180,7 @@ macro_rules! int_out {
             const NULL_AS_ZERO: bool = true;
             fn obs(&self) -> Obs { Obs::I(*self as i64) }
             fn bits(&self) -> u64 { *self as i64 as u64 }
+            fn sentinel() -> Self { 7_777_777 as $t }
         }
         impl OutElem for Option<$t> {
             const NAME: &'static str = concat!("Option<", stringify!($t), ">");
@@ -172,6 +188,7 @@ macro_rules! int_out {
             const NULL_AS_ZERO: bool = false;
             fn obs(&self) -> Obs { match self { None => Obs::Null, Some(v) => Obs::I(*v as i64) } }
             fn bits(&self) -> u64 { match self { None => u64::MAX, Some(v) => *v as i64 as u64 } }
+            fn sentinel() -> Self { Some(7_777_777 as $t) }
         }
     )*};
 }
